@@ -903,6 +903,16 @@ func (c *pmCtx) callsIn(row *ParamRow, blk *ast.BlockStmt, vals types.Object) {
 					}
 				}
 			}
+		case *ast.RangeStmt:
+			// for i, item := range q: item (and i) derive from q
+			for _, kv := range []ast.Expr{s.Key, s.Value} {
+				if kv == nil {
+					continue
+				}
+				if o := identObj(info, kv); o != nil {
+					defs[o] = append(defs[o], s.X)
+				}
+			}
 		case *ast.CallExpr:
 			// v.ParseX(arg): v depends on arg
 			if sel, ok := s.Fun.(*ast.SelectorExpr); ok {
